@@ -4,10 +4,13 @@ package f3
 
 import (
 	"context"
+	"fmt"
+	"time"
 
 	"github.com/filecoin-project/go-f3/certstore"
 	"github.com/filecoin-project/go-f3/ec"
 	"github.com/filecoin-project/go-f3/gpbft"
+	"github.com/filecoin-project/go-f3/internal/clock"
 	"github.com/filecoin-project/go-f3/internal/writeaheadlog"
 	"github.com/filecoin-project/go-f3/manifest"
 	pubsub "github.com/libp2p/go-libp2p-pubsub"
@@ -71,4 +74,60 @@ func (v *VerifRunner) DecodeWire(data []byte) (*gpbft.PartialGMessage, error) {
 		return nil, err
 	}
 	return &pm, nil
+}
+
+// VerifLifecycle runs one whole process lifetime of the node's runner on the WAL in dir with the
+// real Start and Stop: the runner is constructed like F3 does, started on a mock clock that
+// never advances (no alarm fires, so the participant asks for no broadcast), left running until
+// the finalize loop has handled the latest certificate (finalize at EC, purge of the WAL with the
+// bound host.go computes, pruning of the kept self messages) and stopped. finalized is signalled
+// by the EC backend when Finalize is called. The latest certificate must be for instance >= 1.
+func VerifLifecycle(ctx context.Context, walDir string, cs *certstore.Store, backend ec.Backend, ps *pubsub.PubSub,
+	verifier gpbft.Verifier, m manifest.Manifest, pid peer.ID, finalized <-chan struct{}, timeout time.Duration) error {
+	latest := cs.Latest()
+	if latest == nil || latest.GPBFTInstance == 0 {
+		return fmt.Errorf("lifecycle needs a certificate for an instance >= 1")
+	}
+	wal, err := writeaheadlog.Open[walEntry](walDir)
+	if err != nil {
+		return err
+	}
+	ctx, _ = clock.WithMockClock(ctx)
+	out := make(chan *gpbft.MessageBuilder, 16)
+	r, err := newRunner(ctx, cs, backend, ps, verifier, out, m, wal, pid)
+	if err != nil {
+		return err
+	}
+	// The finalize loop deletes the kept self messages older than the certificate after the
+	// purge: an entry for such an instance tells when the loop is through with the certificate.
+	sentinel := latest.GPBFTInstance - 1
+	r.msgsMutex.Lock()
+	if r.selfMessages[sentinel] == nil {
+		r.selfMessages[sentinel] = make(map[roundPhase][]*gpbft.GMessage)
+	}
+	r.msgsMutex.Unlock()
+	if err := r.Start(ctx); err != nil {
+		return fmt.Errorf("start: %w", err)
+	}
+	deadline := time.Now().Add(timeout)
+	select {
+	case <-finalized:
+	case <-time.After(timeout):
+		_ = r.Stop(ctx)
+		return fmt.Errorf("timeout: the finalize loop did not finalize the latest certificate")
+	}
+	for {
+		r.msgsMutex.Lock()
+		_, there := r.selfMessages[sentinel]
+		r.msgsMutex.Unlock()
+		if !there {
+			break
+		}
+		if time.Now().After(deadline) {
+			_ = r.Stop(ctx)
+			return fmt.Errorf("timeout: the finalize loop did not complete the latest certificate")
+		}
+		time.Sleep(50 * time.Microsecond)
+	}
+	return r.Stop(ctx)
 }
